@@ -144,7 +144,8 @@ def stepLine (st : St) (line : String) : St × String :=
     let res := overlapVec ⟨I omin, o0⟩ ⟨I imin, inp⟩ z (H offset) (I assign != 0)
     let mag := overlapVec ⟨I omin, o0.map absQ⟩ ⟨I imin, inp.map absQ⟩ z (H offset) (I assign != 0)
     let extra : Rat := if I assign != 0 then 0 else (maxAbs o0 + maxAbs inp) * (1 + 1 / z)
-    (st, " ".intercalate ((res.vals.zip mag.vals).map fun (v, m) => fq v (64 * u24 * (max (absQ v) (absQ m) + extra) + pow2 (-100))))
+    let edge : Rat := 16 * u24 * maxAbs inp * (1 + 1 / z)   -- box edges are evaluated with a few float operations
+    (st, " ".intercalate ((res.vals.zip mag.vals).map fun (v, m) => fq v (64 * u24 * (max (absQ v) (absQ m) + extra) + edge + pow2 (-100))))
   | "ovit" :: onlyAdd :: assign :: "|" :: rest =>
     let (oc, rest) := splitBar rest
     let (ic, rest) := splitBar rest
@@ -178,10 +179,12 @@ def stepLine (st : St) (line : String) : St × String :=
         let ot (o oin vin : Rat) (lo : Int) (n : Nat) (vout : Rat) (lo' : Int) (n' : Nat) :=
           fq o (32 * u24 * (absQ o + absQ oin + vin * ((lo.natAbs + n : Nat) : Rat) + vout * ((lo'.natAbs + n' : Nat) : Rat)) + pow2 (-100))
         let vals := (flat r.d).zip (flat m.d)
+        -- box edges are evaluated with a few float operations per axis: 3 * 16 * 2⁻²⁴ * max|result magnitude|
+        let edge : Rat := 48 * u24 * maxAbs (flat m.d)
         (st, s!"geom {go.zmin} {go.ymin} {go.xmin} {go.nz} {go.ny} {go.nx} {vt go.vz} {vt go.vy} {vt go.vx} " ++
              s!"{ot go.oz g.oz g.vz g.zmin g.nz go.vz go.zmin go.nz} {ot go.oy g.oy g.vy g.ymin g.ny go.vy go.ymin go.ny} " ++
              s!"{ot go.ox g.ox g.vx g.xmin g.nx go.vx go.xmin go.nx} |" ++
-             String.join (vals.map fun (v, m) => " " ++ fq v (256 * u24 * (max (absQ v) (absQ m)) + pow2 (-100))))
+             String.join (vals.map fun (v, m) => " " ++ fq v (256 * u24 * (max (absQ v) (absQ m)) + edge + pow2 (-100))))
       | _, _ => (st, "bad-op")
   | "cog" :: "|" :: rest =>
     let (gi, dat) := splitBar rest
